@@ -8,12 +8,12 @@ use crate::sys::*;
 pub fn check(tier: Tier) -> Check {
     let parts = vec![Part::new(
         "C09/qos2",
-        json!({"depth": tier.pick(6, 8)}),
+        json!({"depth": tier.pick(7, 9)}),
         0,
         tier.pick(40, 600),
     )];
     let mut parts = parts;
-    parts.push(Part::new("C09/qos2", json!({"depth": tier.pick(5, 7), "flavour": 1}), 0, tier.pick(40, 300)));
+    parts.push(Part::new("C09/qos2", json!({"depth": tier.pick(6, 7), "flavour": 1}), 0, tier.pick(40, 300)));
     Check {
         also_rel: false,
         property: "C09",
